@@ -322,6 +322,54 @@ func runC04(c *Ctx) {
 			} else {
 				ob.Violate("the time given to TestAndSet is not time.Now()")
 			}
+			// R1e: concurrently submitted handshakes are stamped in the order in which the filter sees
+			// them.  The filter treats a caller whose time lies before the eldest entry as a clock that
+			// jumped backwards and DISCARDS EVERYTHING; two callers that each read the clock and are
+			// then served in the opposite order produce exactly that (monotone clock or not).
+			ob = c.Obl("R1", vk+"#stamped-in-filter-order", "the clock is read and the filter consulted in one critical section (a mutex shared by all users of the filter is held from before time.Now() until TestAndSet has returned): otherwise two simultaneous handshakes on an empty filter can be served in the opposite order of their time stamps, the filter takes that for a backwards clock step and forgets the first, which can then be replayed").At(p.InstrPos(T))
+			func() {
+				nc, _ := callOf(unspill(args[1]))
+				if nc == nil || p.CalleeID(nc.Common()) != "time.Now" {
+					ob.Violate("the time given to TestAndSet is not read at the call")
+					return
+				}
+				held := ""
+				allInstrs(T.Parent(), func(in ssa.Instruction) {
+					lk, ok := in.(*ssa.Call)
+					if !ok || p.CalleeID(lk.Common()) != "(*sync.Mutex).Lock" || !instrDominates(lk, nc) {
+						return
+					}
+					mu := lk.Common().Args[0]
+					key := objKey(mu)
+					if _, isG := unspill(mu).(*ssa.Global); !isG {
+						if _, isFA := unspill(mu).(*ssa.FieldAddr); !isFA {
+							return
+						}
+					}
+					// no Unlock of the same mutex can run between the Lock and the filter call
+					released := false
+					allInstrs(T.Parent(), func(in2 ssa.Instruction) {
+						ul, ok := in2.(ssa.CallInstruction)
+						if !ok || p.CalleeID(ul.Common()) != "(*sync.Mutex).Unlock" || objKey(ul.Common().Args[0]) != key {
+							return
+						}
+						if _, isDefer := ul.(*ssa.Defer); isDefer {
+							return
+						}
+						if canReachWithout(lk, ul, nil) && canReachWithout(ul, T, nil) && !instrDominates(T, ul) {
+							released = true
+						}
+					})
+					if !released {
+						held = p.valString(mu)
+					}
+				})
+				if held == "" {
+					ob.Violate("time.Now() at %s is read outside any critical section shared with the filter update: the order of time stamps need not be the order in which the filter is updated", p.InstrPos(nc))
+				} else {
+					ob.HoldNT("clock read and TestAndSet under %s", held)
+				}
+			}()
 			if sum == nil || macRx == nil {
 				continue
 			}
